@@ -2,7 +2,7 @@
    fault sites over all PARSED messages and all reachable states; the byte parser and IE accessors of
    go-pfcp are exercised by the correspondence/mutation side only — see DESIGN.md). Statements only. *)
 From Coq Require Import String List NArith ZArith Bool.
-From GoUpf Require Import Bytes FlagsGen ConstsGen HandlerGen Pfcp PfcpBase PfcpSess PfcpClose PfcpTable PfcpDelete PfcpStep PfcpProps.
+From GoUpf Require Import Bytes FlagsGen ConstsGen HandlerGen Pfcp PfcpBase PfcpSess PfcpClose PfcpTable PfcpDelete PfcpStep PfcpProps PfcpFrame.
 Import ListNotations.
 Local Open Scope N_scope.
 
@@ -24,6 +24,40 @@ Theorem C07_heartbeat_answered : forall w peer seq e,
 Proof. exact heartbeat_answered. Qed.
 Print Assumptions C07_heartbeat_answered.
 
+(* ---- contained handler panics (fix 242a7e8).  The event EvRecvAbort stands for a request whose handler panicked in
+   an IE accessor right after the operations listed in it; it is part of `event`, so the two theorems above already
+   say: histories containing such events never fault and keep the world invariant.  What else holds: *)
+
+(* a Modification aborted at ANY point (any operations done so far, any failure oracle): every other session and its
+   rules are untouched, only this session's driver calls were made, no datagram leaves, the tables are unchanged *)
+Theorem C07_aborted_modification_contained : forall w seid o e s,
+  WInv w -> live w seid s ->
+  exists w' out, handle_mod_abort w seid IeAbsent o e = Ok (w', out) /\ WInv w' /\ wframe w w' seid /\
+    Forall (own_drv seid) out /\
+    w_heap w' = w_heap w /\ w_rnodes w' = w_rnodes w /\ w_free w' = w_free w /\ w_rx w' = w_rx w /\ w_tx w' = w_tx w /\
+    exists s1, live w' seid s1 /\ s_rid s1 = s_rid s /\ s_node s1 = s_node s.
+Proof. exact mod_abort_spec. Qed.
+Print Assumptions C07_aborted_modification_contained.
+
+(* an Establishment aborted at any point: nothing, or one fresh session; every session that existed is untouched *)
+Theorem C07_aborted_establishment_contained : forall w id rid o e ref,
+  WInv w -> alookup id (w_rnodes w) = Some ref ->
+  exists w' out, handle_est_abort w (IeVal id) (IeVal rid) o e = Ok (w', out) /\ WInv w' /\
+    (out = [] /\ w' = w \/
+     exists lid s1, lid <> 0 /\ (forall s', ~ live w lid s') /\ live w' lid s1 /\ s_rid s1 = rid /\ s_node s1 = ref /\
+       wframe w w' lid /\ Forall (own_drv lid) out).
+Proof. exact est_abort_spec. Qed.
+Print Assumptions C07_aborted_establishment_contained.
+
+(* the aborted request leaves a receive transaction WITHOUT an answer (its retransmissions are ignored: C06) and nothing
+   but driver calls came out of it *)
+Theorem C07_aborted_request_unanswered : forall w peer seq m e w' out,
+  is_request m = true -> klookup (peer, seq) (w_rx w) = None ->
+  step w (EvRecvAbort peer seq m e) = Ok (w', out) ->
+  klookup (peer, seq) (w_rx w') = Some None /\ Forall is_drv out.
+Proof. exact abort_leaves_unanswered_transaction. Qed.
+Print Assumptions C07_aborted_request_unanswered.
+
 (* the pre-repair look-up did fault (fix f339873) *)
 Example C07_legacy_refuted : lookup_legacy [] 18446744073709551615 = Fault FIndexOutOfRange.
 Proof. exact lookup_legacy_faults. Qed.
@@ -36,3 +70,16 @@ Example C07_nonvacuous :
   | Fault _ => False
   end.
 Proof. vm_compute. reflexivity. Qed.
+
+(* an aborted Modification after its first operation: the FAR is there, no response, the heartbeat is still answered *)
+Example C07_abort_nonvacuous :
+  match run (init 0 1) [EvRecv 0 1 (MAssocSetup (IeVal 0) []) (mkEnv [] []);
+                        EvRecv 0 2 (MEst (IeVal 0) (IeVal 10) (mkOps [] [] [] [] [] [] [] [] [] [] [] [] [] [] [] [])) (mkEnv [] []);
+                        EvRecvAbort 0 3 (MMod 1 IeAbsent (mkOps [Some 7] [] [] [] [] [] [] [] [] [] [] [] [] [] [] [])) (mkEnv [] []);
+                        EvRecv 0 3 (MMod 1 IeAbsent (mkOps [Some 7] [] [] [] [] [] [] [] [] [] [] [] [] [] [] [])) (mkEnv [] []);
+                        EvRecv 0 4 MHeartbeat (mkEnv [] [])] with
+  | Ok (w, os) => nth 2 os [] = [ODrv DCreate KFAR 1 7 true] /\ nth 3 os [OSend 0 (PHeartbeatRsp 0) false] = []
+                  /\ nth 4 os [] = [OSend 0 (PHeartbeatRsp 4) false] /\ w_dp w = [(1, KFAR, 7)]
+  | Fault _ => False
+  end.
+Proof. vm_compute. repeat split; reflexivity. Qed.
